@@ -3,7 +3,13 @@
 (* Generator of C18 histories over the live registry of transforms.        *)
 (* A history is   Create(c, i); [Execute(1)]; Transform_k(1);              *)
 (*                [Transform_j(2) | Transform_j(1)]; [Execute(1)]          *)
-(* c = circuit family, i = instance, k / j = transform numbers.  Accepts   *)
+(* c = circuit family, i = instance, k / j = transform numbers (a transform *)
+(* called through its optional arguments is a registry entry of its own),  *)
+(* r = parameter representation (1 python float, 2 0-d ndarray, 3 autograd *)
+(* tensor, 4 broadcast 1-d ndarray: HeapData.tla shows that in-place       *)
+(* accumulation is invisible unless the parameters are mutable objects, so *)
+(* the representation is a dimension of the input space); Reps is the set  *)
+(* of (family, representation) pairs to enumerate.  Accepts                *)
 (* is the acceptance relation (transform, family) observed on the code;    *)
 (* Chain the transforms used as second stage; ExecPairs the (k, c) whose   *)
 (* histories re-execute the original before and after (all of them in the  *)
@@ -13,27 +19,27 @@
 (* of the real run is then checked against.                                *)
 (***************************************************************************)
 EXTENDS Integers, Sequences, FiniteSets, TLC, Json
-CONSTANTS NFam, NInst, Accepts, First, Chain, TwoStage, ExecPairs
+CONSTANTS NFam, NInst, Accepts, First, Chain, TwoStage, ExecPairs, Reps
 VARIABLES hist, plan
-Ev(e, c, i, k, on) == [e |-> e, c |-> c, i |-> i, k |-> k, on |-> on]
+Ev(e, c, i, k, on, r) == [e |-> e, c |-> c, i |-> i, k |-> k, on |-> on, r |-> r]
 WithExec == TwoStage \/ <<plan.k, plan.c>> \in ExecPairs
-Init == \E c \in 1..NFam, i \in 1..NInst, k \in First :
-          /\ <<k, c>> \in Accepts
+Init == \E c \in 1..NFam, i \in 1..NInst, k \in First, r \in {p[2] : p \in Reps} :
+          /\ <<k, c>> \in Accepts /\ <<c, r>> \in Reps
           /\ plan = [c |-> c, i |-> i, k |-> k]
-          /\ hist = <<Ev("create", c, i, 0, 0)>>
+          /\ hist = <<Ev("create", c, i, 0, 0, r)>>
 X1 == /\ Len(hist) = 1 /\ WithExec
-      /\ hist' = Append(hist, Ev("execute", 0, 0, 0, 1)) /\ UNCHANGED plan
+      /\ hist' = Append(hist, Ev("execute", 0, 0, 0, 1, 0)) /\ UNCHANGED plan
 NTr == Cardinality({n \in 1..Len(hist) : hist[n].e = "transform"})
 T1 == /\ NTr = 0 /\ (WithExec => Len(hist) = 2)
-      /\ hist' = Append(hist, Ev("transform", 0, 0, plan.k, 1)) /\ UNCHANGED plan
+      /\ hist' = Append(hist, Ev("transform", 0, 0, plan.k, 1, 0)) /\ UNCHANGED plan
 \* second stage: on the first output of the first transform (on = 2) or again on the original (on = 1)
 T2 == /\ NTr = 1 /\ hist[Len(hist)].e = "transform" /\ TwoStage /\ plan.k \in Chain
       /\ \E j \in Chain, on \in {1, 2} : /\ <<j, plan.c>> \in Accepts
-                                          /\ hist' = Append(hist, Ev("transform", 0, 0, j, on))
+                                          /\ hist' = Append(hist, Ev("transform", 0, 0, j, on, 0))
       /\ UNCHANGED plan
 Complete == hist[Len(hist)].e = "transform" /\ (TwoStage /\ plan.k \in Chain => NTr = 2)
 Fin == /\ Complete /\ WithExec
-       /\ hist' = Append(hist, Ev("execute", 0, 0, 0, 1)) /\ UNCHANGED plan
+       /\ hist' = Append(hist, Ev("execute", 0, 0, 0, 1, 0)) /\ UNCHANGED plan
 Next == X1 \/ T1 \/ T2 \/ Fin
 Finished == (Complete /\ ~WithExec) \/ (hist[Len(hist)].e = "execute" /\ Len(hist) > 2)
 Emit == IF Finished THEN PrintT(ToJson([hist |-> hist])) ELSE TRUE
